@@ -14,6 +14,7 @@
 Not decided: numerical identity with a fresh estimator; that warm start converges to the cold-start optimum.
 """
 import ast
+import re
 
 from ..absint import Structured
 from ..engines.alias import Scope, FuncAlias
@@ -492,6 +493,40 @@ def rng_guarded(scope, fi, call):
                 n_callers += 1
                 guards = positive(enclosing_tests(c, g.node))
                 ok = any(truth and ('is int' in U(t) or 'isinstance' in U(t) and 'int' in U(t)) for t, truth in guards)
+                if not ok:
+                    # inside `for _ in range(R)` where R is 0 unless the order is an integer: R = 0 | R = <order> or 0 under (order is None or int)
+                    par = getattr(c, '_parent', None)
+                    loop_ = None
+                    while par is not None:
+                        if isinstance(par, ast.For) and isinstance(par.iter, ast.Call) and U(par.iter.func) == 'range' and len(par.iter.args) == 1 \
+                                and isinstance(par.iter.args[0], ast.Name):
+                            loop_ = par
+                        par = getattr(par, '_parent', None)
+                    if loop_ is not None:
+                        R = loop_.iter.args[0].id
+                        defs_R = [a_ for a_ in ast.walk(g.node) if isinstance(a_, ast.Assign) and any(isinstance(t_, ast.Name) and t_.id == R for t_ in a_.targets)]
+                        def zero_unless_int(a_):
+                            v_ = U(a_.value).replace(' ', '')
+                            if v_ in ('0',):
+                                return True
+                            gs = positive(enclosing_tests(a_, g.node))
+                            for t_, truth_ in gs:
+                                if not truth_:
+                                    continue
+                                parts = t_.values if isinstance(t_, ast.BoolOp) and isinstance(t_.op, ast.Or) else [t_]
+                                kinds = []
+                                for p_ in parts:
+                                    tt = U(p_).replace(' ', '')
+                                    kinds.append('int' if ('isint' in tt or ('isinstance' in tt and 'int' in tt)) else 'none' if tt.endswith(('isNone', '==None')) else '?')
+                                if '?' in kinds or 'int' not in kinds:
+                                    continue
+                                subj = [U(p_.left) if isinstance(p_, ast.Compare) else '' for p_ in parts]
+                                if 'none' in kinds:
+                                    # None must map to 0: `<order> or 0`
+                                    return bool(re.fullmatch(r'(\w+)or0', v_))
+                                return bool(re.fullmatch(r'\w+(or0)?', v_))
+                            return False
+                        ok = bool(defs_R) and all(zero_unless_int(a_) for a_ in defs_R)
                 if not ok:
                     bad.append('%s: `%s`' % (g.qualname, U(c)[:50]))
     if bad:
